@@ -4,7 +4,7 @@
    cross-process SQLite file locking are trusted (see notes/C35.md). *)
 From Coq Require Import ZArith List Bool Arith.
 Import ListNotations.
-Require Import PonyV.Model.C19Txn PonyV.Proofs.C19Base PonyV.Proofs.C19Proofs3 PonyV.Proofs.C35Proofs PonyV.Gen.C35ForUpdate.
+Require Import PonyV.Model.C19Txn PonyV.Proofs.C19Base PonyV.Proofs.C19Proofs2 PonyV.Proofs.C19Proofs3 PonyV.Proofs.C35Proofs PonyV.Gen.C35ForUpdate.
 Local Open Scope nat_scope.
 
 (* In every reachable state of any number of threads (any schedule, any faults): a session that holds objects loaded with
@@ -40,6 +40,18 @@ Theorem C35_serializable_begin : forall oracle sh body s, shape_imm sh = true ->
     forall e, In e evs -> is_stmt e = true -> e_txn e = true /\ e_lock e = true /\ e_mine e = true.
 Proof. exact serializable_lemma. Qed.
 Print Assumptions C35_serializable_begin.
+
+(* get_for_update(...) through any lookup route (primary key, unique key, composite key), whether or not the object already
+   sits in the session cache and whether or not it is already locked (EntityMeta._find_in_cache_ uses a cached object only if it
+   is in cache.for_update, otherwise it goes to _find_in_db_): when the call returns, under any faults, this session is in a
+   transaction, holds the provider lock and counts a locked object - so C35_sqlite_mutex / C35_no_concurrent_write apply. *)
+Theorem C35_get_for_update_locks : forall oracle cached locked s, WF s -> (locked = true -> 0 < k_forupd s) ->
+  match run_op oracle (OGetFU cached locked) s with
+  | (Ok, s') => k_intxn s' = true /\ mine s' = true /\ lock s' = true /\ 0 < k_forupd s'
+  | _ => True
+  end.
+Proof. exact getfu_locks. Qed.
+Print Assumptions C35_get_for_update_locks.
 
 (* SQL text: PostgreSQL / MySQL (SQLBuilder.SELECT_FOR_UPDATE) append FOR UPDATE [NOWAIT] [SKIP LOCKED]; SQLite appends nothing. *)
 Theorem C35_for_update_sql : forall nowait skip,
